@@ -281,7 +281,10 @@ type verifOneShotCoordinator struct {
 }
 
 func (o *verifOneShotCoordinator) offsetFetch(offsetFetchRequestV1) (offsetFetchResponseV1, error) {
-	return o.resp, o.err
+	if o.err != nil { // like Conn.offsetFetch: no response alongside an error
+		return offsetFetchResponseV1{}, o.err
+	}
+	return o.resp, nil
 }
 
 // VerifGroupStartOffsets runs the real fetchOffsets + makeAssignments of a ConsumerGroup configured with the given
